@@ -2,7 +2,7 @@
 (* C04 at design level: the coding SCHEME of Huffman.tla (RFC 7541 section 5.2) is a      *)
 (* canonical bijection for small complete prefix codes, checked exhaustively:             *)
 (*   code A (MC_HuffmanA*.cfg): 5 symbols + EOS, lengths 1..4, 4-bit units (padding <= 3)  *)
-(*   code B (MC_HuffmanB*.cfg): 10 symbols + EOS, lengths 2..8, 8-bit units (padding <= 7) *)
+(*   code B (MC_HuffmanB.cfg, thorough tier): 10 symbols + EOS, lengths 2..8, 8-bit units (padding <= 7) *)
 (* The state space is the tree of all symbol strings up to MaxStr and all unit strings up *)
 (* to MaxUnits (one state per string, grown by appending, so that TLC workers share it).  *)
 EXTENDS Huffman, TLC
